@@ -87,6 +87,8 @@ def _multistart(prog, c7, ms):
                 ab, seen = abstract(t_, [("[array([_k[_i] for _k in self.hp_bounds]) for _i in [0, 1]][0]", "LO"),
                                          ("[array([_k[_i] for _k in self.hp_bounds]) for _i in [0, 1]][1]", "HI"),
                                          ("array([_k[0] for _k in self.hp_bounds])", "LO"), ("array([_k[1] for _k in self.hp_bounds])", "HI"),
+                                         ("array(self.hp_bounds).T[0]", "LO"), ("array(self.hp_bounds).T[1]", "HI"),
+                                         ("array(self.hp_bounds)[:, 0]", "LO"), ("array(self.hp_bounds)[:, 1]", "HI"),
                                          ("random(size=len(self.hp_bounds))", "RND"), ("random(len(self.hp_bounds))", "RND"),
                                          ("random(size=self.n_hyperpars)", "RND")])
                 try:
@@ -375,7 +377,7 @@ def run(prog, tier):
     if len(calls) == 1:
         fa, ba, ga = rl.arg(calls[0][0], 0, "func"), rl.arg(calls[0][0], None, "bounds"), rl.arg(calls[0][0], None, "approx_grad")
         ok = (fa is not None and U(fa) == "self.bfgs_cost_func" and ba is not None and U(ba) == "self.hp_bounds"
-              and (ga is None and False or (ga is not None and U(ga) in ("False", "0"))))
+              and (ga is None or U(ga) in ("False", "0")))        # absent = scipy's default (False): func returns (value, gradient)
     obs.append(struct_ob("bounds-passed", qual(c6, lb), ok,
                          f"L-BFGS-B must minimise bfgs_cost_func with its analytic gradient within self.hp_bounds: "
                          f"`{U(calls[0][0]) if calls else None}`", REL, lb.lineno))
